@@ -96,12 +96,7 @@ func genSusp(t *rapid.T) SuspCase {
 	}
 	c.Cfg.Immutable = false
 	c.Keys = genKeys(t, c.Cfg, 3, 8)
-	for len(c.Keys) < 3 {
-		k := c.Keys[len(c.Keys)-1]
-		d := append([]byte{}, k.Digest...)
-		d[len(d)-1] ^= byte(0x40 + len(c.Keys))
-		c.Keys = append(c.Keys, KeySpec{Digest: d, Code: k.Code, Codec: k.Codec})
-	}
+	c.Keys = extendKeys(c.Keys, 3)
 	pm := genMix(t, []string{opPut, opRemove, opFlush}, []int{6, 1, 3})
 	c.Prefix = genOps(t, pm, len(c.Keys), c.Cfg, 2, 14, false)
 	c.Fg = Op{K: []string{opPut, opRemove}[weighted(t, "fgkind", []int{4, 1})], Key: rapid.IntRange(0, len(c.Keys)-1).Draw(t, "fgkey"), VLen: []int{0, 4, 9, 30}[rapid.IntRange(0, 3).Draw(t, "fgvlen")]}
